@@ -7,6 +7,8 @@ NOREROUTE_SCHED = [False, False, 'resume', 'restart', 'resample']
 PROFILES = {
     'generic': {},
     'lattice': {'p_lattice': 1.0},
+    'slotall': {'p_kinds': (0.25, 0.0, 0.0, 0.75), 'p_ps': 0.0, 'p_qcap_sched': 0.3, 'arr_scale': 0.7},
+    'infall': {'p_kinds': (0.3, 0.7, 0.0, 0.0), 'p_ps': 0.3},
     'exactall': {'p_exact': 1.0, 'p_ps': 0.0},
     'exactlattice': {'p_exact': 1.0, 'p_ps': 0.0, 'p_lattice': 1.0},
     'continuous': {'p_lattice': 0.0},
@@ -74,7 +76,7 @@ def scope_c11(spec, f):
 
 # property -> (list of (profile, weight), scope predicate, deciding counters (any > 0 makes a run non-trivial))
 PLANS = {
-    'C01': ([('generic', 4), ('lattice', 2), ('ring', 2), ('c11', 1), ('c12', 1)], scope_all, ['kinds.accept']),
+    'C01': ([('generic', 4), ('lattice', 2), ('ring', 2), ('c11', 1), ('c12', 1), ('slotall', 1), ('infall', 1), ('c02ps', 1)], scope_all, ['kinds.accept']),
     'C02': ([('generic', 4), ('lattice', 2), ('c12', 2), ('c11', 1), ('ring', 1), ('c02ps', 1), ('exactall', 1)], scope_all, ['C02.records']),
     'C03': ([('generic', 4), ('ring', 2), ('c11', 2), ('c13', 1), ('c12', 1)], scope_all, ['C03.records']),
     'C04': ([('generic', 3), ('c04util', 4), ('ring', 2), ('c12', 1)], scope_all, ['C04.attaches']),
@@ -85,7 +87,7 @@ PLANS = {
     'C09': ([('c09', 5), ('c09jsq', 3), ('generic', 3)], scope_all, ['C09.routing_decisions']),
     'C10': ([('c10', 5), ('generic', 4), ('lattice', 1), ('exactlattice', 1)], scope_all, ['C10.services']),
     'C11': ([('c11', 9), ('generic', 1)], scope_c11, ['C11.preemptions']),
-    'C12': ([('c12', 8), ('generic', 2)], scope_all, ['C12.shift_changes', 'C12.slots']),
+    'C12': ([('c12', 7), ('slotall', 1), ('generic', 2)], scope_all, ['C12.shift_changes', 'C12.slots']),
     'C13': ([('c13', 7), ('generic', 3)], scope_all, ['C13.renege_events', 'C13.baulk_decisions']),
     'C14': ([('c14', 3), ('c14lattice', 2), ('c14wide', 4), ('c12', 1), ('c11', 1), ('c13', 1), ('ring', 1), ('c09', 1), ('exactall', 1)], scope_all, ['C14.runs_completed']),
     'C17': ([('c17', 6), ('c17ncm', 2), ('generic', 2), ('ring', 1)], lambda spec, f: bool(spec.get('tracker')), ['C17.state_comparisons']),
